@@ -16,6 +16,8 @@ PatOf(c) ==
     [] c = "!ext:lua" -> P("ext", "lua", TRUE)
 
 A(kind, path, dir) == [kind |-> kind, path |-> path, dir |-> dir]
+AF(path, dir, file) == [kind |-> "file", path |-> path, dir |-> dir, file |-> file]     \* a spelling through `..`
+UpSets == {"a+upa", "srca+upa", "upa+srca", "dot+upa"}
 ArgsOf(s) ==
   CASE s = "dot" -> <<A("dir", ".", <<>>)>>
     [] s = "src" -> <<A("dir", "src", <<"src">>)>>
@@ -34,6 +36,12 @@ ArgsOf(s) ==
     [] s = "dot+notes" -> <<A("dir", ".", <<>>), A("file", "src/notes.txt", <<"src">>)>>
     [] s = "notes+dot" -> <<A("file", "src/notes.txt", <<"src">>), A("dir", ".", <<>>)>>
     [] s = "notes+src" -> <<A("file", "src/notes.txt", <<"src">>), A("dir", "src", <<"src">>)>>
+    \* one file under two spellings, one of them through `..` (processed once) ...
+    [] s = "a+upa" -> <<A("file", "a.lua", <<>>), AF("src/../a.lua", <<>>, "a.lua")>>
+    [] s = "dot+upa" -> <<A("dir", ".", <<>>), AF("src/../a.lua", <<>>, "a.lua")>>
+    \* ... and two different files whose spellings have the same named components (both processed)
+    [] s = "srca+upa" -> <<A("file", "src/a.lua", <<"src">>), AF("src/../a.lua", <<>>, "a.lua")>>
+    [] s = "upa+srca" -> <<AF("src/../a.lua", <<>>, "a.lua"), A("file", "src/a.lua", <<"src">>)>>
     [] s = "lib+src" -> <<A("dir", "lib", <<"lib">>), A("dir", "src", <<"src">>)>>
 
 (* -g lists (a plain pattern selects, a negated one excludes) *)
@@ -60,6 +68,9 @@ Build ==
   /\ \E r \in PatSeqs, s \in PatSeqs, a \in ArgSets, fl \in FlagSets, g \in GlobSets, n \in IgNames :
         \* the root ignore file may also be called `.ignore` (CHANGELOG 0.20: treated "as if" it were a .styluaignore)
         /\ (n # "stylua" => (g = "none" /\ Len(r) = 1 /\ s = <<>>))
+        \* `..` spellings are about the identity of files, not about ignore files: explicit files under
+        \* --respect-ignores are judged with the plain spellings above
+        /\ (a \in UpSets => ~Flags(fl).respect)
         /\ (r = <<>> \/ s = <<>> \/ (Len(r) = 1 /\ Len(s) = 1))          \* budget: at most two patterns in total
         /\ (g # "none" => Len(r) + Len(s) <= 1)                            \* ... one next to a glob list
         /\ sc' = [ig_root |-> r, ig_src |-> s, args |-> ArgsOf(a), argset |-> a, globs |-> GlobsOf(g), globset |-> g, igname |-> n,
@@ -72,7 +83,7 @@ Spec == Init /\ [][Build]_vars
 (* wording for the directory walk; for a file named explicitly under --respect-ignores neither text settles it,     *)
 (* so there both outcomes are accepted.                                                                              *)
 ExplicitFiles == {f.path : f \in {g \in Universe : \E i \in DOMAIN sc.args :
-                                   sc.args[i].kind = "file" /\ sc.args[i].path \in {g.path, "./" \o g.path}}}
+                                   sc.args[i].kind = "file" /\ (sc.args[i].path \in {g.path, "./" \o g.path} \/ Target(sc.args[i]) = g.path)}}
 Case == [sc |-> sc, selected |-> SelectedSet(sc) \ (IF sc.igname # "stylua" /\ sc.respect THEN ExplicitFiles ELSE {}),
          maybe |-> MaybeSet(sc) \cup (IF sc.igname # "stylua" /\ sc.respect THEN ExplicitFiles ELSE {}),
          universe |-> {f.path : f \in Universe},
